@@ -56,6 +56,25 @@ func buildConfig(c Case) (*schedx.Config, *progs.Prog, error) {
 	}
 	p := mk()
 	cfg := &schedx.Config{Modules: p.Modules, Output: p.Output, Prod: c.Prod, Seg: c.Seg, Start: c.Start, Stop: c.Stop, Final: c.Final, Workers: c.Workers, Cap: c.Cap, PartialWins: c.PartialWins}
+	if c.Cache == "partials" || c.Cache == "partials-seg0" {
+		// the cache a crash leaves between the completion of the jobs and their merges: the partial store files (of every
+		// segment, or of the first one only), no full snapshot, no mapper output
+		names, content, err := c07.Universe(c07.Shape{Prog: c.Prog, Seg: c.Seg, Prod: c.Prod, Start: c.Start, Stop: c.Stop, Final: c.Final})
+		if err != nil {
+			return nil, nil, err
+		}
+		cfg.Initial = map[string][]byte{}
+		for _, n := range names {
+			if !strings.Contains(n, ".partial") {
+				continue
+			}
+			if c.Cache == "partials-seg0" && !strings.Contains(n, fmt.Sprintf("/%010d-", c.Seg)) {
+				continue
+			}
+			cfg.Initial[n] = content[n]
+		}
+		return cfg, p, nil
+	}
 	if strings.HasPrefix(c.Cache, "c07mask:") {
 		// a cache state of the C07 universe of the same request: files of a complete run + partials of jobs run alone
 		var mask uint64
@@ -277,7 +296,7 @@ func Run(ctx *core.Ctx) int {
 	add("twostages-0-0-0", 2, false, 5, 9, -1, w12, ec) // development mode: stores only
 	add("samestage-0-3-0", 2, true, 1, 6, 6, w12, ec)   // two stores in one stage
 	add("maponly-1", 2, true, 2, 7, 6, w12, ec)         // no store at all
-	budget := 4 * time.Minute
+	budget := 8 * time.Minute
 	if spec := ctx.Args["case"]; spec != "" {
 		// --case "prog seg prod start stop final workers cache"
 		var c Case
@@ -322,6 +341,10 @@ func Run(ctx *core.Ctx) int {
 			}
 		}
 	}
+	// the cache a crash leaves between job completion and merges: partial store files only
+	pc := []string{"partials-seg0", "partials"}
+	add("twostages-0-0-0", 2, true, 1, 4, 4, w12, pc)
+	add("storemap-0-0", 2, true, 1, 6, 6, w12, pc)
 	// every store starts at or above the hand-off (the store stages only have NoOp units)
 	add("storemap-3-1", 2, true, 1, 2, -1, w12, []string{"empty"})
 	add("storemap-3-1", 2, true, 1, 3, -1, w12, []string{"empty"})
@@ -338,9 +361,9 @@ func Run(ctx *core.Ctx) int {
 		seg, start, stop uint64
 		final            int64
 	}
-	sweeps := []sweep{{"storemap-0-0", 5, 6, 12, 10}, {"twostages-0-0-0", 5, 2, 6, 5}}
+	sweeps := []sweep{{"storemap-0-0", 5, 6, 12, 10}}
 	if ctx.Thorough() {
-		sweeps = append(sweeps, sweep{"index", 4, 5, 9, 8}, sweep{"samestage-1-7-3", 4, 9, 11, -1})
+		sweeps = append(sweeps, sweep{"twostages-0-0-0", 5, 2, 6, 5}, sweep{"index", 4, 5, 9, 8}, sweep{"samestage-1-7-3", 4, 9, 11, -1})
 	}
 	var small []Case
 	if ctx.Args["case"] != "" || ctx.Args["only"] != "" {
